@@ -69,6 +69,27 @@ SIGS = ['', 'i', 'ai', 'a{sv}', '(ii)', 'v', 'a(ya{s(iv)})', 'yyyyuua(yv)', 's',
 BOUNDARY = {c: sorted({lo, lo + 1, -1 if lo < 0 else lo, 0, 1, hi - 1, hi, (lo + hi) // 2,
                        hi // 256, 255 if hi >= 255 else hi, 256 if hi >= 256 else hi})
             for c, (lo, hi) in INT_RANGE.items()}
+# plain Python ints at and around every integer range boundary: inside a variant each of them has a DBus type
+# (the statement of C01 lists "integer range boundaries"): [-2**31, 2**31) travels as INT32, the rest of
+# [-2**63, 2**63) as INT64, [2**63, 2**64) as UINT64 - written here from the type ranges, not from txdbus
+PLAIN_INT_BOUNDARIES = sorted(set(
+    v for b in (2 ** 7, 2 ** 8, 2 ** 15, 2 ** 16, 2 ** 31, 2 ** 32, 2 ** 63, 2 ** 64)
+    for v in (b - 2, b - 1, b, b + 1, -b - 1, -b, -b + 1, -b + 2) if -2 ** 63 <= v < 2 ** 64) | {0, 1, -1})
+
+
+def plain_int_type(n):
+    """The DBus type a plain int has inside a variant (any int in [-2**63, 2**64) has one)."""
+    if -2 ** 31 <= n < 2 ** 31:
+        return 'i'
+    if -2 ** 63 <= n < 2 ** 63:
+        return 'x'
+    if 2 ** 63 <= n < 2 ** 64:
+        return 't'
+    raise ValueError('no DBus integer type holds %d' % n)
+
+
+BOUNDARY['x'] = sorted(set(BOUNDARY['x']) | {v for v in PLAIN_INT_BOUNDARIES if -2 ** 63 <= v < 2 ** 63 and abs(v) >= 2 ** 31 - 2})
+BOUNDARY['t'] = sorted(set(BOUNDARY['t']) | {v for v in PLAIN_INT_BOUNDARIES if v >= 2 ** 31 - 2})
 BOUNDARY['b'] = [False, True]
 BOUNDARY['d'] = [_dbl(b) for b in DOUBLE_BITS]
 BOUNDARY['s'] = STRINGS
@@ -312,6 +333,9 @@ def gen_spec(rng, ty, depth=3, in_variant=False):
     'av' and 'a{sv}', which are what empty containers infer to)."""
     if isinstance(ty, str):
         if ty == 'v':
+            if rng.random() < 0.25:         # a plain int at an integer range boundary (spelt plain by to_python)
+                n = rng.choice(PLAIN_INT_BOUNDARIES)
+                return ('V', plain_int_type(n), n)
             vt = gen_variant_type(rng, max(depth - 1, 0))
             return ('V', vt, gen_spec(rng, vt, depth - 1, True))
         return gen_basic(rng, ty)
@@ -734,6 +758,10 @@ def value_stats(ty, sv, stat, depth=0, in_variant=0):
     if isinstance(ty, str):
         if ty == 'v':
             stat('variant-nesting=%d' % min(in_variant + 1, 4))
+            if sv[1] in ('i', 'x', 't') and sv[2] in PLAIN_INT_BOUNDARIES:
+                stat('variant:plain-int-at-range-boundary')
+                if abs(sv[2]) in (2 ** 31, 2 ** 63):
+                    stat('variant:plain-int-exactly-2^31-or-2^63')
             stat('variant-content-signature-length=%s' % _bucket(len(render(sv[1])), [1, 4, 20, 127, 255]))
             value_stats(sv[1], sv[2], stat, depth, in_variant + 1)
         elif ty in 'so':
